@@ -153,6 +153,11 @@ func runC09(c *Ctx) {
 	c.Count("reviewed table rows", len(c09Table))
 
 	// ---- hang rules (join counters and result channels local to a handler)
+	// U1 for the proof verifiers fed with untrusted proofs: an unsigned difference that wraps
+	// turns the "index below the tree" guard into dead code
+	checkUnsignedDifferences(c, "C09.U1 unsigned-difference-guarded", func(fn *ssa.Function) bool {
+		return strings.HasPrefix(FuncKey(fn), "pkg/trie/rmt.") || strings.HasPrefix(FuncKey(fn), "pkg/trie/smt.")
+	}, c09UnsignedTable, 0)
 	checkHangRules(c, fns)
 	checkLoopProgress(c, fns)
 
@@ -532,4 +537,8 @@ func c09ViaCallers(p *Program, s PanicSite, via map[*ssa.Function][]string) (boo
 		hows = append(hows, FuncKey(root)+": "+row.reason)
 	}
 	return true, "reviewed table row of each caller of the new helper: " + strings.Join(hows, "; "), rows
+}
+
+var c09UnsignedTable = []unsignedRow{
+	{fn: "pkg/trie/rmt.(*nodeLocation).index", frag: "(p1 − p0.layerIndex)", reason: "every location is built for the tree whose height is passed here (newNodeLocation rejects an index with more path bits than layers, sibling locations stay inside the layer structure), so layerIndex <= height; should it wrap, int(length) is negative, the padding loop does not run and ParseInt answers — no panic, no unbounded loop"},
 }
